@@ -130,6 +130,8 @@ type Outcome struct {
 	DiskOps  []simfs.OpRec
 
 	ReaderFired bool
+	EndlessReads int
+	WriterStalled bool
 	ReaderErr   error
 	WriterFired bool
 	WriterErr   error
@@ -382,6 +384,7 @@ func collect(out *Outcome, rd *simReader, wr *simWriter, cb *simCallback, d *sim
 	out.CbAfter = cb.after
 	out.StaleNodes = cb.staleNodes()
 	out.ReaderFired, out.ReaderErr = rd.Fired, rd.Err
+	out.EndlessReads, out.WriterStalled = rd.EndlessReads, wr.Stalled
 	out.WriterFired, out.WriterErr = wr.Fired, wr.Err
 	out.WriterRefused = wr.Refused
 	out.CbFired, out.CbErr = cb.Fired, cb.Err
